@@ -1,4 +1,5 @@
 """C20: open descriptors stay bounded regardless of how many files are copied."""
+from ..common import rmtree as _rmtree
 import json, os, shutil
 from .. import build, ctlplane, evplane, fsmat, nsplane, runner
 from ..nsplane import E, SC
@@ -44,7 +45,7 @@ def run(ctx):
         st = {"trace": "openat,open,close,copy_file_range,fsync,dup,dup2,dup3", "inject": [inj] if inj else []}
         # same flow as nsplane.run_one but with RLIMIT_NOFILE = 1024 as the property states
         names = fsmat.Names()
-        shutil.rmtree(root, ignore_errors=True); os.makedirs(root)
+        _rmtree(root); os.makedirs(root)
         contents = fsmat.materialise(root, nsplane.mat_entries(sc), names)
         st["out"] = root + ".strace"
         r = runner.run_xcp(binary, nsplane.cli(sc, drv, names, root, w), cwd=root, strace=st, timeout=600, nofile=1024)
@@ -62,7 +63,7 @@ def run(ctx):
         ex = (-9 if r.exit is None else r.exit) if not r.timed_out else -7
         recs, nev = evplane.records(rid, st["out"], root, ["s"], ["d"], {"fsync": False, "reflink": "auto"}, ex, must_succeed=True, missing=missing,
                                     only={"open", "close"})
-        shutil.rmtree(root, ignore_errors=True)
+        _rmtree(root)
         try:
             os.unlink(st["out"])
         except OSError:
